@@ -65,11 +65,16 @@ def gen_config(r, idx):
         c["cand"] = "aniso"
         c["dims"] = r.choice([1, 2, 2, 3])
         c["depth"] = r.choice([1, 2, 3])
-        c["limit"] = r.choice([-1, 3, 4, 5])
+        if fam == "sequence":     # level limit l: (l+1)^dims candidates at most
+            c["limit"] = r.choice([-1, 3, 4, 5])
+            pool = (c["limit"] + 1) ** c["dims"]
+        else:                     # clenshaw-curtis, level limit l: (2^l+1)^dims candidates at most
+            c["limit"] = r.choice([-1, 2, 3])
+            pool = (2 ** c["limit"] + 1) ** c["dims"]
         if c["limit"] < 0:       # infinite candidate pool: the budget must end the run
             c["budget"] = r.choice([1, 2, 3, 5, 8, 13, 20, 40, 60])
-        else:
-            c["budget"] = r.choice([1, 2, 4, 7, 15, 30, 80, 400, -1])
+        else:                    # budgets below / above the pool; no budget only when the pool is small
+            c["budget"] = r.choice([1, 2, 4, 7, 15, 30, 80, 400] + ([-1] if pool <= 300 else [100]))
     else:
         c["cand"] = "surplus"
         c["dims"] = r.choice([1, 2, 2, 3])
@@ -80,8 +85,11 @@ def gen_config(r, idx):
         c["limit"] = r.choice([-1, -1, 3, 5])
         # budgets smaller / equal / larger than what the tolerance asks for, and smaller than jobs*batch
         c["budget"] = r.choice([1, 2, 3, 5, 8, 13, 21, 34, 60, 100, 250, 1000, -1])
-        if c["budget"] == -1 and c["tol"] < 3e-3 and c["limit"] < 0:
-            c["limit"] = 5
+        # keep the candidate pool finite where the tolerance cannot end the run: no budget, a large budget, or zero-boundary basis
+        # functions (localp0 never converges near the boundary for a function that does not vanish there and would refine until
+        # the integer point indices overflow) -- such runs do not terminate by design, which is not what C18 is about
+        if (c["budget"] == -1 or c["budget"] >= 250 or fam == "localp0") and c["limit"] < 0:
+            c["limit"] = r.choice([4, 5, 6])
     return c
 
 
@@ -95,6 +103,19 @@ CORPUS = [
      "grid": "localp", "cand": "surplus", "dims": 2, "depth": 2, "order": 1, "tol": 1e-3, "crit": "classic", "limit": -1, "budget": 3},
     {"idx": "w-many-workers", "mode": "cs", "seed": 10, "lat": 2, "yield": 2, "jobs": 8, "outs": 1, "batch": 3, "guess": 0, "preload": 0,
      "grid": "localp", "cand": "surplus", "dims": 3, "depth": 2, "order": 1, "tol": 1e-3, "crit": "classic", "limit": -1, "budget": 300},
+    # thread-free witnesses of the grid behaviour behind key final-grid-not-interpolating-localpoly (mode seq = loadConstructedPoints one
+    # point at a time in this order, no threads): (1,0,0) is loaded after (1,1,-1), whose parents (1,0,-1) and (1,1,0) are missing, and
+    # the surplus of (1,1,-1) is never corrected; the second is the minimised load order of a parallel run whose FINAL point set was
+    # parent-complete and still did not interpolate
+    {"idx": "w-stale-surplus-localp3d", "mode": "seq", "seed": 1, "lat": 0, "yield": 0, "jobs": 1, "outs": 1, "batch": 1, "budget": -1, "grid": "localp",
+     "dims": 3, "depth": 0, "order": 1, "seq": "0,0,0;0,1,0;0,1,-1;1,1,-1;1,0,0"},
+    {"idx": "w-stale-surplus-semilocalp2d", "mode": "seq", "seed": 1, "lat": 0, "yield": 0, "jobs": 1, "outs": 1, "batch": 1, "budget": -1,
+     "grid": "semilocalp", "dims": 2, "depth": 1, "order": 2, "seq": "0.0,0.0;1.0,0.0;1.0,1.0;-0.5,1.0;-0.5,-0.5;1.0,-0.5"},
+    # getCandidateConstructionPoints re-proposing a delivered (parked) sample: schedule dependent (about 1 run in 5), four tries
+] + [
+    {"idx": "w-reproposed-%d" % i, "mode": "cs", "seed": 716580366 + i, "lat": 1, "yield": 0, "jobs": 3, "outs": 2, "batch": 1, "guess": 1, "preload": 0,
+     "grid": "localp", "cand": "surplus", "dims": 2, "depth": 2, "order": 1, "tol": 1e-3, "crit": "stable", "limit": 6, "budget": -1} for i in range(4)
+] + [
     {"idx": "w-lnv", "mode": "lnv", "seed": 11, "lat": 2, "yield": 1, "jobs": 4, "outs": 1, "grid": "sequence", "dims": 2, "depth": 5, "order": 1,
      "overwrite": 0, "vecmodel": 0},
 ]
@@ -164,7 +185,8 @@ def run_one(exe, c, timeout=RUN_TIMEOUT):
 
 
 def parse_out(text):
-    o = {"hooks": None, "points": {}, "init": [], "iv": {}, "calls": [], "T": [], "lp": {}, "lnv": None, "result": None, "final": None}
+    o = {"hooks": None, "points": {}, "init": [], "iv": {}, "calls": [], "T": [], "lp": {}, "lv": {}, "lnv": None, "result": None,
+         "final": None, "complete": True, "missing_parents": 0, "refresh": []}
     for line in text.split("\n"):
         t = line.split()
         if not t:
@@ -172,6 +194,9 @@ def parse_out(text):
         k = t[0]
         if k == "T":
             o["T"].append(line)
+            if t[3] == "refresh":      # logged by the driver's candidates lambda (mode cs), hooks or not
+                bar = t.index("|")
+                o["refresh"].append((int(t[1]), set(int(v) for v in t[bar + 1:t.index("|", bar + 1)])))
         elif k == "CALL":
             bar = t.index("|")
             n = int(t[5])
@@ -186,7 +211,12 @@ def parse_out(text):
         elif k == "IV":
             o["iv"][int(t[1])] = [float.fromhex(v) for v in t[2:]]
         elif k == "LP":
-            o["lp"][int(t[1])] = [float.fromhex(v) for v in t[2:]]
+            bar = t.index("|")
+            o["lp"][int(t[1])] = [float.fromhex(v) for v in t[2:bar]]
+            o["lv"][int(t[1])] = [float.fromhex(v) for v in t[bar + 1:]]
+        elif k == "COMPLETE":
+            o["complete"] = t[1] == "1"
+            o["missing_parents"] = int(t[2])
         elif k == "LNV":
             o["lnv"] = [int(v) for v in t[2:]]
         elif k == "FINAL":
@@ -227,9 +257,6 @@ def blackbox(c, o, stats):
     v = []
     outs = c["outs"]
     calls = o["calls"]
-    if o["result"] != "ok":
-        v.append(("exception", "run ended with: %s" % o["result"]))
-        return v
     jobs = max(1, c["jobs"])
     # never two concurrent calls with the same thread id; ids in range
     byt = {}
@@ -263,6 +290,9 @@ def blackbox(c, o, stats):
     total = sum(cnt.values())
     stats["points_evaluated"] = stats.get("points_evaluated", 0) + total
     if c["mode"] == "lnv":
+        if o["result"] != "ok":
+            v.append(("exception", "run ended with: %s" % o["result"]))
+            return v
         want = o["lnv"] or []
         bad = [p for p in want if cnt.get(p, 0) != 1] + [p for p in cnt if p not in set(want)]
         if bad:
@@ -272,9 +302,35 @@ def blackbox(c, o, stats):
             v.append(("lnv-loaded-count", "loaded %d of %d samples" % (o["final"]["loaded"], len(want))))
     else:
         dbl = [p for p, k in cnt.items() if k > 1]
+        reproposed = []
         if dbl:
             stats["double_evaluations"] = stats.get("double_evaluations", 0) + len(dbl)
-            v.append(("double-evaluation", "model called %d times for point %s (%s)" % (cnt[dbl[0]], dbl[0], " ".join(o["points"].get(dbl[0], [])))))
+            for p in dbl:
+                cp = sorted([cl for cl in calls if p in cl["pts"]], key=lambda x: x["enter"])
+                # re-proposal by the grid: every later call starts after the earlier one returned AND (mode cs) a candidate list
+                # containing p was delivered in between; anything else is the hand-out protocol's fault
+                ok = True
+                for a, b in zip(cp, cp[1:]):
+                    if b["enter"] < a["exit"]:
+                        ok = False
+                    elif c["mode"] == "cs" and not any(a["exit"] < tk < b["enter"] and p in ps for tk, ps in o["refresh"]):
+                        ok = False
+                if ok:
+                    reproposed.append(p)
+                else:
+                    v.append(("double-evaluation", "model called %d times for point %s (%s) without a new candidate list proposing it again"
+                              % (cnt[p], p, " ".join(o["points"].get(p, [])))))
+            if reproposed:
+                p = reproposed[0]
+                v.append(("candidate-reproposed-delivered-point",
+                          "getCandidateConstructionPoints proposed point %s (%s) again after its sample had been computed and delivered; the model "
+                          "was called %d times for it and the sample was loaded more than once (%d such points)"
+                          % (p, " ".join(o["points"].get(p, [])), cnt[p], len(reproposed))))
+                stats["runs_with_reproposed_points"] = stats.get("runs_with_reproposed_points", 0) + 1
+                return v       # the grid has been fed the same point twice: its state is unreliable from here on, nothing else is judged
+        if o["result"] != "ok":
+            v.append(("exception", "run ended with: %s" % o["result"]))
+            return v
         pre = [p for p in cnt if p in set(o["init"])]
         if pre:
             v.append(("reevaluated-loaded-point", "model called for the already loaded point %s" % pre[0]))
@@ -294,18 +350,30 @@ def blackbox(c, o, stats):
                 if n0 + total > max(cap, n0 + first):
                     v.append(("budget-exceeded-main-loop", "max_num_points=%d, %d loaded before, %d samples evaluated, %d by the launch loop"
                               % (c["budget"], n0, total, first)))
-    # the final surrogate reproduces the callback at every loaded point; every loaded point has a call (or was preloaded)
+    # (a) every value sits at the point it was computed for: the grid's loaded value at p is what the model returned for p
+    # (b) the final surrogate reproduces the loaded values (hence the callback) at every loaded point
     nchk = 0
+    if not o["complete"]:
+        stats["final_grids_not_parent_complete"] = stats.get("final_grids_not_parent_complete", 0) + 1
     for p, gv in o["lp"].items():
+        lv = o["lv"].get(p, gv)
         if p in val:
-            if not any(all(close(a, b) for a, b in zip(gv, rv)) for rv in val[p]):
-                v.append(("value-at-wrong-point", "loaded point %s (%s): surrogate %s, model returned %s"
-                          % (p, " ".join(o["points"].get(p, [])), gv, val[p])))
+            if not any(all(close(a, b) for a, b in zip(lv, rv)) for rv in val[p]):
+                v.append(("value-at-wrong-point", "loaded point %s (%s): grid holds the value %s, the model returned %s for it"
+                          % (p, " ".join(o["points"].get(p, [])), lv, val[p])))
         elif p in o["iv"]:
-            if not all(close(a, b) for a, b in zip(gv, o["iv"][p])):
-                v.append(("preloaded-value-changed", "preloaded point %s: surrogate %s, loaded %s" % (p, gv, o["iv"][p])))
+            if not all(close(a, b) for a, b in zip(lv, o["iv"][p])):
+                v.append(("preloaded-value-changed", "preloaded point %s: grid holds %s, loaded %s" % (p, lv, o["iv"][p])))
         else:
             v.append(("loaded-point-without-call", "point %s is loaded but the model was never called for it" % p))
+        if not all(close(a, b) for a, b in zip(gv, lv)):
+            # association is right (checked above); the grid's own surplus bookkeeping is off.  Observed for local polynomial grids
+            # whose points arrived while the hierarchy was connected but not parent-complete (thread-free witnesses in CORPUS)
+            key = "final-grid-not-interpolating-localpoly" if c["grid"] in ("localp", "semilocalp", "localp0") \
+                else "final-grid-not-interpolating-" + c["grid"]
+            v.append((key, "loaded point %s (%s): evaluate() gives %s but the loaded value is %s (final point set parent-complete: %s, "
+                      "%d loaded points with a missing parent)" % (p, " ".join(o["points"].get(p, [])), gv, lv, o["complete"], o["missing_parents"])))
+            break
         nchk += 1
     stats["loaded_points_checked"] = stats.get("loaded_points_checked", 0) + nchk
     stats["evaluated_not_loaded"] = stats.get("evaluated_not_loaded", 0) + sum(1 for p in cnt if p not in o["lp"])
@@ -397,17 +465,23 @@ def run(res, tier, seed, replay_cfg=None, reps=1):
                               (name, "all threads blocked, no CPU time consumed" if rr["hang"] == "deadlock" else "still running after 10x the time limit",
                                " ".join(rr["threads"])[:400]), rep)
                 continue
+            o = parse_out(rr["out"]) if rr["rc"] == 0 else None
+            bb = blackbox(c, o, stats) if o is not None else []
+            corrupted = any(k == "candidate-reproposed-delivered-point" for k, _ in bb)
             for kind, site in tsan_reports(rr["err"]):
                 n_tsan_reports += 1
-                res.violation("tsan-%s-%s" % (kind.replace(" ", "-"), site), "%s: ThreadSanitizer: %s at %s\n%s" %
-                              (name, kind, site, rr["err"][:1500]), dict(rep, tsan=rr["err"][:6000]))
+                if corrupted and kind.startswith("heap-use-after-free"):
+                    continue      # consequence of loading the same point twice (already reported for this run)
+                tk = "tsan-%s-%s" % (kind.replace(" ", "-"), site)
+                nkey[tk] = nkey.get(tk, 0) + 1
+                if nkey[tk] <= 3:
+                    res.violation(tk, "%s: ThreadSanitizer: %s at %s\n%s" % (name, kind, site, rr["err"][:1500]), dict(rep, tsan=rr["err"][:6000]))
             if rr["rc"] != 0:
                 res.violation("driver-crash-" + c["mode"], "%s: pardrv exited with %s: %s" % (name, rr["rc"], rr["err"][-600:]), rep)
                 continue
-            o = parse_out(rr["out"])
             if hooks_present is None:
                 hooks_present = o["hooks"]
-            for key, what in blackbox(c, o, stats):
+            for key, what in bb:
                 nkey[key] = nkey.get(key, 0) + 1
                 if nkey[key] <= 3:      # a few replay files per key are enough
                     res.violation(key, "%s: %s" % (name, what), rep)
@@ -452,8 +526,9 @@ def run(res, tier, seed, replay_cfg=None, reps=1):
                                       {"kind": "impl-counterexample", "config": c, "variant": var, "cmd": "pardrv " + cfg_key(c)})
                     if kv.get("hcand", "ok") != "ok":
                         tv["hcand_violated"] += 1
-                        res.violation("hcand-candidate-oracle", "%s: getCandidateConstructionPoints returned a duplicate or an already loaded "
-                                      "point (hypothesis H-CAND of c18_at_most_once): %s" % (t[1], line[:300]),
+                        nkey["candidate-reproposed-delivered-point"] = nkey.get("candidate-reproposed-delivered-point", 0) + 1
+                        res.violation("candidate-reproposed-delivered-point", "%s: getCandidateConstructionPoints returned a duplicate or a point whose "
+                                      "sample was already delivered (hypothesis H-CAND of c18_at_most_once): %s" % (t[1], line[:300]),
                                       {"kind": "impl-counterexample", "config": c, "variant": var, "cmd": "pardrv " + cfg_key(c)})
             elif t[0] == "MISMATCH":
                 seen.add(t[1])
